@@ -155,6 +155,20 @@ CHECKS["C05"] = dict(
     note=SOLVER_NOTE + "Guards of nested soft constraints are relational (1-bit) conditions.",
     technique="Coq proof over abstract satisfiability test + per-call term/order correspondence and enumeration oracle in Coq",
     ref="DESIGN.md §3 C05")
+CHECKS["C04"] = dict(
+    text="Theorems (Coq, closed) about the expansion of list constraints (Rand/Unroll.v): a foreach expansion holds iff its body "
+         "holds for every index and element of the list (index-only conditions decided as integer comparisons); the term built "
+         "for l.sum evaluates to the integer sum of the exposed elements at width w + bits(n-1), which cannot overflow; "
+         "membership is true iff the value equals some exposed element (false for the empty list); unique means pairwise "
+         "different / no duplicates; for random-size lists, sum / product / membership / uniqueness guarded by i < size are those "
+         "of the first `size` elements. Tie per call: the check writes each scenario in these forms over exactly the elements the "
+         "list exposes after the call, Coq expands them, compares the expansion with the solver transcript (fixed-size lists) and "
+         "judges values, frame and outcome by enumeration; len() / size / iteration / indexing / element models are compared after "
+         "every call and every append / clear / assignment against Python-level bookkeeping.",
+    note=SOLVER_NOTE + "Scalar lists only (lists of objects and unique_vec are not generated). For random-size lists there is no "
+         "term-level tie (element models are created during the call); their values, sizes and outcomes are judged by the oracle.",
+    technique="Coq proof over list-expansion model + per-call differential correspondence (transcript and enumeration oracle in Coq)",
+    ref="DESIGN.md §3 C04")
 CHECKS["C14"] = dict(
     text="PARTIAL. Theorems (Coq, closed): the range-trimming primitives of bounds inference never remove a value satisfying "
          "the bound; the randomising pattern's slices are exactly the low d bits, within the chosen range these bits (sign bit "
